@@ -6,10 +6,10 @@ package main
 //	    builds a LocalClient from the universe, resolves the root with the real resolver
 //	    through a recording client, evaluates the six clauses of C06 directly on the
 //	    graph + install tree, and returns  (VERDICT xCASE xOBS)  where CASE is the text
-//	    of an `npm` case (root + recorded finite table) and OBS the projected observable.
+//	    of an `npm` case (root + recorded finite table) and OBS the projected npmObservable.
 //	npm      (fuel root VERSIONS REQUIREMENTS MATCHING SEMVER)
 //	    resolves the root with the real resolver against a client that answers from the
-//	    table only; returns the projected observable (the extracted model does the same).
+//	    table only; returns the projected npmObservable (the extracted model does the same).
 
 import (
 	"context"
@@ -32,18 +32,18 @@ import (
 
 // ---------------------------------------------------------------- sx <-> resolve values
 
-func sxVKey(k resolve.VersionKey) sx.V {
+func npmSxVKey(k resolve.VersionKey) sx.V {
 	return sx.L(sx.B(k.Name), sx.Int(int(k.VersionType)), sx.B(k.Version))
 }
 
-func sxVersion(v resolve.Version) sx.V { return sx.L(sxVKey(v.VersionKey), dumpVer(v.AttrSet)) }
+func npmSxVersion(v resolve.Version) sx.V { return sx.L(npmSxVKey(v.VersionKey), dumpVer(v.AttrSet)) }
 
-func sxReq(d resolve.RequirementVersion) sx.V {
+func npmSxReq(d resolve.RequirementVersion) sx.V {
 	t := d.Type
-	return sx.L(sxVKey(d.VersionKey), dumpDep(&t))
+	return sx.L(npmSxVKey(d.VersionKey), dumpDep(&t))
 }
 
-func decVKey(a sx.V) resolve.VersionKey {
+func npmDecVKey(a sx.V) resolve.VersionKey {
 	return resolve.VersionKey{
 		PackageKey:  resolve.PackageKey{System: resolve.NPM, Name: a.Nth(0).Str()},
 		VersionType: resolve.VersionType(a.Nth(1).Int()),
@@ -51,16 +51,16 @@ func decVKey(a sx.V) resolve.VersionKey {
 	}
 }
 
-func decVersion(a sx.V) resolve.Version {
-	return resolve.Version{VersionKey: decVKey(a.Nth(0)), AttrSet: buildVer(a.Nth(1))}
+func npmDecVersion(a sx.V) resolve.Version {
+	return resolve.Version{VersionKey: npmDecVKey(a.Nth(0)), AttrSet: buildVer(a.Nth(1))}
 }
 
-func decReq(a sx.V) resolve.RequirementVersion {
-	return resolve.RequirementVersion{VersionKey: decVKey(a.Nth(0)), Type: buildDep(a.Nth(1))}
+func npmDecReq(a sx.V) resolve.RequirementVersion {
+	return resolve.RequirementVersion{VersionKey: npmDecVKey(a.Nth(0)), Type: buildDep(a.Nth(1))}
 }
 
-// sxCompare is the total order used to sort observables (mirrors sx_cmp in CasesNpm.v).
-func sxCompare(a, b sx.V) int {
+// npmSxCompare is the total order used to sort observables (mirrors sx_cmp in CasesNpm.v).
+func npmSxCompare(a, b sx.V) int {
 	if a.Kind != b.Kind {
 		if a.Kind < b.Kind {
 			return -1
@@ -80,7 +80,7 @@ func sxCompare(a, b sx.V) int {
 		return strings.Compare(a.B, b.B)
 	}
 	for i := 0; i < len(a.L) && i < len(b.L); i++ {
-		if c := sxCompare(a.L[i], b.L[i]); c != 0 {
+		if c := npmSxCompare(a.L[i], b.L[i]); c != 0 {
 			return c
 		}
 	}
@@ -93,11 +93,11 @@ func sxCompare(a, b sx.V) int {
 	return 0
 }
 
-func sxSort(l []sx.V) {
-	sort.SliceStable(l, func(i, j int) bool { return sxCompare(l[i], l[j]) < 0 })
+func npmSxSort(l []sx.V) {
+	sort.SliceStable(l, func(i, j int) bool { return npmSxCompare(l[i], l[j]) < 0 })
 }
 
-func sxStrings(l []string) sx.V {
+func npmSxStrings(l []string) sx.V {
 	out := make([]sx.V, len(l))
 	for i, s := range l {
 		out[i] = sx.B(s)
@@ -108,7 +108,7 @@ func sxStrings(l []string) sx.V {
 // ---------------------------------------------------------------- universe
 
 // universe: ((name ((ver attrs ((depname depver typeattrs) ...)) ...)) ...)
-func buildUniverse(u sx.V) (*resolve.LocalClient, bool) {
+func npmBuildUniverse(u sx.V) (*resolve.LocalClient, bool) {
 	lc := resolve.NewLocalClient()
 	hasDerived := false
 	for _, p := range u.List() {
@@ -144,105 +144,105 @@ func buildUniverse(u sx.V) (*resolve.LocalClient, bool) {
 
 // ---------------------------------------------------------------- recording and table clients
 
-type answer struct {
+type npmAnswer struct {
 	key  resolve.VersionKey
 	kind string // ok, nf, err
 	val  sx.V
 }
 
-type recClient struct {
+type npmRecClient struct {
 	inner                  resolve.Client
-	vers, reqs, match      []answer
+	vers, reqs, match      []npmAnswer
 	seenV, seenR, seenM    map[resolve.VersionKey]bool
 	reqStrings, verStrings map[string]bool
 	needSem                bool
 }
 
-func newRec(inner resolve.Client) *recClient {
-	return &recClient{inner: inner,
+func npmNewRec(inner resolve.Client) *npmRecClient {
+	return &npmRecClient{inner: inner,
 		seenV: map[resolve.VersionKey]bool{}, seenR: map[resolve.VersionKey]bool{}, seenM: map[resolve.VersionKey]bool{},
 		reqStrings: map[string]bool{}, verStrings: map[string]bool{}}
 }
 
-func errKind(err error) string {
+func npmErrKind(err error) string {
 	if errors.Is(err, resolve.ErrNotFound) {
 		return "nf"
 	}
 	return "err"
 }
 
-func (r *recClient) noteVersion(v resolve.Version) {
+func (r *npmRecClient) noteVersion(v resolve.Version) {
 	r.verStrings[v.Version] = true
 	if v.HasAttr(version.DerivedFrom) {
 		r.needSem = true
 	}
 }
 
-func (r *recClient) Version(ctx context.Context, vk resolve.VersionKey) (resolve.Version, error) {
+func (r *npmRecClient) Version(ctx context.Context, vk resolve.VersionKey) (resolve.Version, error) {
 	v, err := r.inner.Version(ctx, vk)
 	if !r.seenV[vk] {
 		r.seenV[vk] = true
 		if err != nil {
-			r.vers = append(r.vers, answer{vk, errKind(err), sx.V{}})
+			r.vers = append(r.vers, npmAnswer{vk, npmErrKind(err), sx.V{}})
 		} else {
-			r.vers = append(r.vers, answer{vk, "ok", sxVersion(v)})
+			r.vers = append(r.vers, npmAnswer{vk, "ok", npmSxVersion(v)})
 			r.noteVersion(v)
 		}
 	}
 	return v, err
 }
 
-func (r *recClient) Versions(ctx context.Context, pk resolve.PackageKey) ([]resolve.Version, error) {
+func (r *npmRecClient) Versions(ctx context.Context, pk resolve.PackageKey) ([]resolve.Version, error) {
 	// The npm resolver never asks for the plain version list; pass through.
 	return r.inner.Versions(ctx, pk)
 }
 
-func (r *recClient) Requirements(ctx context.Context, vk resolve.VersionKey) ([]resolve.RequirementVersion, error) {
+func (r *npmRecClient) Requirements(ctx context.Context, vk resolve.VersionKey) ([]resolve.RequirementVersion, error) {
 	ds, err := r.inner.Requirements(ctx, vk)
 	if !r.seenR[vk] {
 		r.seenR[vk] = true
 		if err != nil {
-			r.reqs = append(r.reqs, answer{vk, errKind(err), sx.V{}})
+			r.reqs = append(r.reqs, npmAnswer{vk, npmErrKind(err), sx.V{}})
 		} else {
 			l := make([]sx.V, len(ds))
 			for i, d := range ds {
-				l[i] = sxReq(d)
+				l[i] = npmSxReq(d)
 				r.reqStrings[d.Version] = true
 				if _, ok := d.Type.GetAttr(dep.KnownAs); ok {
 					r.needSem = true
 				}
 			}
-			r.reqs = append(r.reqs, answer{vk, "ok", sx.L(l...)})
+			r.reqs = append(r.reqs, npmAnswer{vk, "ok", sx.L(l...)})
 		}
 	}
 	return ds, err
 }
 
-func (r *recClient) MatchingVersions(ctx context.Context, vk resolve.VersionKey) ([]resolve.Version, error) {
+func (r *npmRecClient) MatchingVersions(ctx context.Context, vk resolve.VersionKey) ([]resolve.Version, error) {
 	vs, err := r.inner.MatchingVersions(ctx, vk)
 	if !r.seenM[vk] {
 		r.seenM[vk] = true
 		if err != nil {
-			r.match = append(r.match, answer{vk, errKind(err), sx.V{}})
+			r.match = append(r.match, npmAnswer{vk, npmErrKind(err), sx.V{}})
 		} else {
 			l := make([]sx.V, len(vs))
 			for i, v := range vs {
-				l[i] = sxVersion(v)
+				l[i] = npmSxVersion(v)
 				r.noteVersion(v)
 			}
-			r.match = append(r.match, answer{vk, "ok", sx.L(l...)})
+			r.match = append(r.match, npmAnswer{vk, "ok", sx.L(l...)})
 		}
 	}
 	return vs, err
 }
 
-func sxAnswers(as []answer) sx.V {
+func npmSxAnswers(as []npmAnswer) sx.V {
 	out := make([]sx.V, len(as))
 	for i, a := range as {
 		if a.kind == "ok" {
-			out[i] = sx.L(sxVKey(a.key), sx.L(sx.Sym("ok"), a.val))
+			out[i] = sx.L(npmSxVKey(a.key), sx.L(sx.Sym("ok"), a.val))
 		} else {
-			out[i] = sx.L(sxVKey(a.key), sx.L(sx.Sym(a.kind)))
+			out[i] = sx.L(npmSxVKey(a.key), sx.L(sx.Sym(a.kind)))
 		}
 	}
 	return sx.L(out...)
@@ -250,7 +250,7 @@ func sxAnswers(as []answer) sx.V {
 
 // semTable tabulates ParseConstraint/Match (the resolver's two direct uses of package semver)
 // on the requirement strings and version strings the resolution has seen.
-func (r *recClient) semTable() sx.V {
+func (r *npmRecClient) semTable() sx.V {
 	if !r.needSem {
 		return sx.L()
 	}
@@ -277,40 +277,40 @@ func (r *recClient) semTable() sx.V {
 	return sx.L(out...)
 }
 
-type tableClient struct {
+type npmTableClient struct {
 	vers  map[resolve.VersionKey]func() (resolve.Version, error)
 	reqs  map[resolve.VersionKey]func() ([]resolve.RequirementVersion, error)
 	match map[resolve.VersionKey]func() ([]resolve.Version, error)
 }
 
-var errUnrecorded = errors.New("not in the table")
+var npmErrUnrecorded = errors.New("not in the table")
 
-func tableErr(kind string) error {
+func npmTableErr(kind string) error {
 	if kind == "nf" {
 		return fmt.Errorf("table: %w", resolve.ErrNotFound)
 	}
 	return errors.New("table: error")
 }
 
-func newTableClient(vt, rt, mt sx.V) *tableClient {
-	t := &tableClient{
+func npmNewTableClient(vt, rt, mt sx.V) *npmTableClient {
+	t := &npmTableClient{
 		vers:  map[resolve.VersionKey]func() (resolve.Version, error){},
 		reqs:  map[resolve.VersionKey]func() ([]resolve.RequirementVersion, error){},
 		match: map[resolve.VersionKey]func() ([]resolve.Version, error){},
 	}
 	for _, e := range vt.List() {
-		k, ans := decVKey(e.Nth(0)), e.Nth(1)
+		k, ans := npmDecVKey(e.Nth(0)), e.Nth(1)
 		if _, dup := t.vers[k]; dup {
 			continue
 		}
 		if kind := ans.Nth(0).Str(); kind == "ok" {
-			t.vers[k] = func() (resolve.Version, error) { return decVersion(ans.Nth(1)), nil }
+			t.vers[k] = func() (resolve.Version, error) { return npmDecVersion(ans.Nth(1)), nil }
 		} else {
-			t.vers[k] = func() (resolve.Version, error) { return resolve.Version{}, tableErr(kind) }
+			t.vers[k] = func() (resolve.Version, error) { return resolve.Version{}, npmTableErr(kind) }
 		}
 	}
 	for _, e := range rt.List() {
-		k, ans := decVKey(e.Nth(0)), e.Nth(1)
+		k, ans := npmDecVKey(e.Nth(0)), e.Nth(1)
 		if _, dup := t.reqs[k]; dup {
 			continue
 		}
@@ -318,16 +318,16 @@ func newTableClient(vt, rt, mt sx.V) *tableClient {
 			t.reqs[k] = func() ([]resolve.RequirementVersion, error) {
 				var out []resolve.RequirementVersion
 				for _, d := range ans.Nth(1).List() {
-					out = append(out, decReq(d))
+					out = append(out, npmDecReq(d))
 				}
 				return out, nil
 			}
 		} else {
-			t.reqs[k] = func() ([]resolve.RequirementVersion, error) { return nil, tableErr(kind) }
+			t.reqs[k] = func() ([]resolve.RequirementVersion, error) { return nil, npmTableErr(kind) }
 		}
 	}
 	for _, e := range mt.List() {
-		k, ans := decVKey(e.Nth(0)), e.Nth(1)
+		k, ans := npmDecVKey(e.Nth(0)), e.Nth(1)
 		if _, dup := t.match[k]; dup {
 			continue
 		}
@@ -335,40 +335,40 @@ func newTableClient(vt, rt, mt sx.V) *tableClient {
 			t.match[k] = func() ([]resolve.Version, error) {
 				var out []resolve.Version
 				for _, v := range ans.Nth(1).List() {
-					out = append(out, decVersion(v))
+					out = append(out, npmDecVersion(v))
 				}
 				return out, nil
 			}
 		} else {
-			t.match[k] = func() ([]resolve.Version, error) { return nil, tableErr(kind) }
+			t.match[k] = func() ([]resolve.Version, error) { return nil, npmTableErr(kind) }
 		}
 	}
 	return t
 }
 
-func (t *tableClient) Version(ctx context.Context, vk resolve.VersionKey) (resolve.Version, error) {
+func (t *npmTableClient) Version(ctx context.Context, vk resolve.VersionKey) (resolve.Version, error) {
 	if f, ok := t.vers[vk]; ok {
 		return f()
 	}
-	return resolve.Version{}, errUnrecorded
+	return resolve.Version{}, npmErrUnrecorded
 }
-func (t *tableClient) Versions(ctx context.Context, pk resolve.PackageKey) ([]resolve.Version, error) {
-	return nil, errUnrecorded
+func (t *npmTableClient) Versions(ctx context.Context, pk resolve.PackageKey) ([]resolve.Version, error) {
+	return nil, npmErrUnrecorded
 }
-func (t *tableClient) Requirements(ctx context.Context, vk resolve.VersionKey) ([]resolve.RequirementVersion, error) {
+func (t *npmTableClient) Requirements(ctx context.Context, vk resolve.VersionKey) ([]resolve.RequirementVersion, error) {
 	if f, ok := t.reqs[vk]; ok {
 		return f()
 	}
-	return nil, errUnrecorded
+	return nil, npmErrUnrecorded
 }
-func (t *tableClient) MatchingVersions(ctx context.Context, vk resolve.VersionKey) ([]resolve.Version, error) {
+func (t *npmTableClient) MatchingVersions(ctx context.Context, vk resolve.VersionKey) ([]resolve.Version, error) {
 	if f, ok := t.match[vk]; ok {
 		return f()
 	}
-	return nil, errUnrecorded
+	return nil, npmErrUnrecorded
 }
 
-// ---------------------------------------------------------------- one resolution and its observable
+// ---------------------------------------------------------------- one resolution and its npmObservable
 
 type npmRun struct {
 	status string // ok, err, panic
@@ -403,7 +403,7 @@ func npmResolve(c resolve.Client, root resolve.VersionKey) (out npmRun) {
 	return npmRun{status: "ok", g: g, tree: tree}
 }
 
-func sortedKeys(m map[string]int) []string {
+func npmSortedKeys(m map[string]int) []string {
 	out := make([]string, 0, len(m))
 	for k := range m {
 		out = append(out, k)
@@ -412,8 +412,8 @@ func sortedKeys(m map[string]int) []string {
 	return out
 }
 
-// gidIndex maps graph node ids to positions in the flattened tree (-1: no tree node).
-func gidIndex(tree []npm.VerifTreeNode, n int) []int {
+// npmGidIndex maps graph node ids to positions in the flattened tree (-1: no tree node).
+func npmGidIndex(tree []npm.VerifTreeNode, n int) []int {
 	idx := make([]int, n)
 	for i := range idx {
 		idx[i] = -1
@@ -429,7 +429,7 @@ func gidIndex(tree []npm.VerifTreeNode, n int) []int {
 	return idx
 }
 
-func nodeErrKind(text string) int {
+func npmNodeErrKind(text string) int {
 	switch {
 	case strings.HasPrefix(text, "could not find a version"):
 		return 1
@@ -441,7 +441,7 @@ func nodeErrKind(text string) int {
 	return 0
 }
 
-func graphErrItems(g *resolve.Graph) []string {
+func npmGraphErrItems(g *resolve.Graph) []string {
 	if g.Error == "" {
 		return nil
 	}
@@ -458,40 +458,40 @@ func graphErrItems(g *resolve.Graph) []string {
 	return out
 }
 
-func observable(r npmRun) sx.V {
+func npmObservable(r npmRun) sx.V {
 	if r.status != "ok" {
 		return sx.L(sx.Sym(r.status))
 	}
 	g := r.g
 	var tn []sx.V
 	for _, t := range r.tree {
-		tn = append(tn, sx.L(sx.Int(t.Parent), sx.B(t.Pkg.Name), sxVKey(t.Version),
+		tn = append(tn, sx.L(sx.Int(t.Parent), sx.B(t.Pkg.Name), npmSxVKey(t.Version),
 			sx.Bool(t.ID != 0 || t.Parent == -1), sx.Bool(t.Bundled),
-			sxStrings(sortedKeys(t.Children)), sxStrings(sortedKeys(t.Alias)),
-			sxStrings(t.Protected), sxStrings(t.AliasProtected)))
+			npmSxStrings(npmSortedKeys(t.Children)), npmSxStrings(npmSortedKeys(t.Alias)),
+			npmSxStrings(t.Protected), npmSxStrings(t.AliasProtected)))
 	}
-	idx := gidIndex(r.tree, len(g.Nodes))
+	idx := npmGidIndex(r.tree, len(g.Nodes))
 	var es []sx.V
 	for _, e := range g.Edges {
 		ty := e.Type
-		es = append(es, sx.L(sx.Int(idx[e.From]), sx.Int(idx[e.To]), sxVKey(g.Nodes[e.From].Version),
-			sxVKey(g.Nodes[e.To].Version), sx.B(e.Requirement), dumpDep(&ty)))
+		es = append(es, sx.L(sx.Int(idx[e.From]), sx.Int(idx[e.To]), npmSxVKey(g.Nodes[e.From].Version),
+			npmSxVKey(g.Nodes[e.To].Version), sx.B(e.Requirement), dumpDep(&ty)))
 	}
-	sxSort(es)
+	npmSxSort(es)
 	var ne []sx.V
 	for i, n := range g.Nodes {
 		for _, e := range n.Errors {
-			// the error text is not an observable: node and requirement only
-			ne = append(ne, sx.L(sx.Int(idx[i]), sxVKey(n.Version), sxVKey(e.Req)))
+			// the error text is not an npmObservable: node and requirement only
+			ne = append(ne, sx.L(sx.Int(idx[i]), npmSxVKey(n.Version), npmSxVKey(e.Req)))
 		}
 	}
-	sxSort(ne)
-	return sx.L(sx.Sym("ok"), sx.L(tn...), sx.L(es...), sx.L(ne...), sxStrings(graphErrItems(g)))
+	npmSxSort(ne)
+	return sx.L(sx.Sym("ok"), sx.L(tn...), sx.L(es...), sx.L(ne...), npmSxStrings(npmGraphErrItems(g)))
 }
 
-// ---------------------------------------------------------------- direct oracle (C06 clauses)
+// ---------------------------------------------------------------- direct npmOracle (C06 clauses)
 
-type oracle struct {
+type npmOracle struct {
 	lc         *resolve.LocalClient
 	g          *resolve.Graph
 	tree       []npm.VerifTreeNode
@@ -501,14 +501,14 @@ type oracle struct {
 	stats      map[string]int
 }
 
-func (o *oracle) fail(clause string, detail string) {
+func (o *npmOracle) fail(clause string, detail string) {
 	if len(o.viol) < 8 {
 		o.viol = append(o.viol, sx.L(sx.B(clause), sx.B(detail)))
 	}
 	o.stats["viol:"+clause]++
 }
 
-func typeMatches(d resolve.RequirementVersion, e resolve.Edge) (plain, withSel bool) {
+func npmTypeMatches(d resolve.RequirementVersion, e resolve.Edge) (plain, withSel bool) {
 	if d.Type.Compare(e.Type) == 0 {
 		plain = true
 	}
@@ -520,7 +520,7 @@ func typeMatches(d resolve.RequirementVersion, e resolve.Edge) (plain, withSel b
 	return
 }
 
-func lookupName(d resolve.RequirementVersion) string {
+func npmLookupName(d resolve.RequirementVersion) string {
 	if a, ok := d.Type.GetAttr(dep.KnownAs); ok && a != "" {
 		return a
 	}
@@ -528,7 +528,7 @@ func lookupName(d resolve.RequirementVersion) string {
 }
 
 // slotName is the name under which tree node i sits in its parent's directory.
-func (o *oracle) slotName(i int) (string, bool) {
+func (o *npmOracle) slotName(i int) (string, bool) {
 	if i <= 0 {
 		return "", false
 	}
@@ -546,7 +546,7 @@ func (o *oracle) slotName(i int) (string, bool) {
 	return "", false
 }
 
-func hasTag(v resolve.Version, tag string) bool {
+func npmHasTag(v resolve.Version, tag string) bool {
 	tags, _ := v.GetAttr(version.Tags)
 	for _, t := range strings.Split(tags, ",") {
 		if t == tag {
@@ -557,7 +557,7 @@ func hasTag(v resolve.Version, tag string) bool {
 }
 
 // sat says whether the target of edge e satisfies requirement d, and how.
-func (o *oracle) sat(d resolve.RequirementVersion, e resolve.Edge) string {
+func (o *npmOracle) sat(d resolve.RequirementVersion, e resolve.Edge) string {
 	ctx := context.Background()
 	tk := o.g.Nodes[e.To].Version
 	ti := o.idx[e.To]
@@ -571,24 +571,37 @@ func (o *oracle) sat(d resolve.RequirementVersion, e resolve.Edge) string {
 		}
 	}
 	slot, inTree := o.slotName(ti)
+	bundledTarget, from := false, resolve.VersionKey{}
 	if ti >= 0 && o.tree[ti].Bundled {
+		bundledTarget, from = true, o.tree[ti].Version
+	} else if ti < 0 {
+		// The tree node is gone (a bundled copy that was used and later replaced at its level):
+		// what it was derived from is read from the client.
+		if v, err := o.lc.Version(ctx, tk); err == nil {
+			if name, ok := v.GetAttr(version.DerivedFrom); ok {
+				bundledTarget, from = true, tk
+				from.Name = name
+				slot = tk.Name[strings.LastIndex(tk.Name, ">")+1:] // the name it was installed under
+			}
+		}
+	}
+	if bundledTarget {
 		// A bundled copy is a graph node of the derived (mangled) package; it stands for
 		// the version it is derived from.
-		from := o.tree[ti].Version
 		for _, v := range mv {
 			if v.VersionKey == from {
 				return "bundled"
 			}
 		}
-		if c, err := semver.NPM.ParseConstraint(d.Version); err == nil && (from.Name == d.Name || slot == lookupName(d)) && c.Match(from.Version) {
+		if c, err := semver.NPM.ParseConstraint(d.Version); err == nil && (from.Name == d.Name || slot == npmLookupName(d)) && c.Match(from.Version) {
 			return "bundled"
 		}
-		if d.Version == "*" && slot == lookupName(d) {
+		if d.Version == "*" && (slot == npmLookupName(d) || from.Name == d.Name) {
 			return "star"
 		}
 		return ""
 	}
-	if inTree && slot == lookupName(d) {
+	if inTree && slot == npmLookupName(d) {
 		if d.Version == "*" {
 			return "star"
 		}
@@ -603,7 +616,7 @@ func (o *oracle) sat(d resolve.RequirementVersion, e resolve.Edge) string {
 	return ""
 }
 
-func bundledDep(lc *resolve.LocalClient, d resolve.RequirementVersion) bool {
+func npmBundledDep(lc *resolve.LocalClient, d resolve.RequirementVersion) bool {
 	if !d.Type.IsRegular() {
 		return false
 	}
@@ -617,7 +630,7 @@ func bundledDep(lc *resolve.LocalClient, d resolve.RequirementVersion) bool {
 // expected lists the requirements of a version that the resolver has to resolve: not dev,
 // not peer, a regular one gives way to an optional one of the same package, a
 // bundle-scoped one to a regular one, and the direct content of a bundle is not a requirement.
-func expectedRequirements(lc *resolve.LocalClient, vk resolve.VersionKey) []resolve.RequirementVersion {
+func npmExpectedRequirements(lc *resolve.LocalClient, vk resolve.VersionKey) []resolve.RequirementVersion {
 	reqs, err := lc.Requirements(context.Background(), vk)
 	if err != nil {
 		return nil
@@ -641,7 +654,7 @@ func expectedRequirements(lc *resolve.LocalClient, vk resolve.VersionKey) []reso
 		case d.Type.HasAttr(dep.Dev), sc == "peer":
 		case !d.Type.HasAttr(dep.Opt) && opt[d.Name]:
 		case sc == "bundle" && reg[d.Name]:
-		case bundledDep(lc, d):
+		case npmBundledDep(lc, d):
 		default:
 			out = append(out, d)
 		}
@@ -649,7 +662,7 @@ func expectedRequirements(lc *resolve.LocalClient, vk resolve.VersionKey) []reso
 	return out
 }
 
-func (o *oracle) expectedPick(d resolve.RequirementVersion) (want []resolve.VersionKey, how string) {
+func (o *npmOracle) expectedPick(d resolve.RequirementVersion) (want []resolve.VersionKey, how string) {
 	ctx := context.Background()
 	mv, _ := o.lc.MatchingVersions(ctx, d.VersionKey)
 	if len(mv) == 0 {
@@ -658,7 +671,7 @@ func (o *oracle) expectedPick(d resolve.RequirementVersion) (want []resolve.Vers
 	all, _ := o.lc.Versions(ctx, d.PackageKey)
 	var latest []resolve.Version
 	for _, v := range all {
-		if hasTag(v, "latest") {
+		if npmHasTag(v, "latest") {
 			latest = append(latest, v)
 		}
 	}
@@ -701,10 +714,10 @@ func (o *oracle) expectedPick(d resolve.RequirementVersion) (want []resolve.Vers
 	return want, how
 }
 
-func (o *oracle) dupLookupName(vk resolve.VersionKey) bool {
+func (o *npmOracle) dupLookupName(vk resolve.VersionKey) bool {
 	seen := map[string]bool{}
-	for _, d := range expectedRequirements(o.lc, vk) {
-		n := lookupName(d)
+	for _, d := range npmExpectedRequirements(o.lc, vk) {
+		n := npmLookupName(d)
 		if seen[n] {
 			return true
 		}
@@ -714,7 +727,7 @@ func (o *oracle) dupLookupName(vk resolve.VersionKey) bool {
 }
 
 // nodeLookup walks up from tree node x until a directory holds an entry called name.
-func (o *oracle) nodeLookup(x int, name string) int {
+func (o *npmOracle) nodeLookup(x int, name string) int {
 	for y := x; y >= 0; y = o.tree[y].Parent {
 		t := o.tree[y]
 		if c, ok := t.Children[name]; ok {
@@ -727,7 +740,7 @@ func (o *oracle) nodeLookup(x int, name string) int {
 	return -1
 }
 
-func (o *oracle) run() {
+func (o *npmOracle) run() {
 	ctx := context.Background()
 	g := o.g
 	st := o.stats
@@ -752,7 +765,7 @@ func (o *oracle) run() {
 	}
 	st["graph_nodes"] = len(g.Nodes)
 	st["edges"] = len(g.Edges)
-	st["gerr_items"] = len(graphErrItems(g))
+	st["gerr_items"] = len(npmGraphErrItems(g))
 
 	// clauses 1, 4, 6 per edge
 	perNode := map[resolve.NodeID][]resolve.Edge{}
@@ -769,7 +782,7 @@ func (o *oracle) run() {
 			if d.Version != e.Requirement {
 				continue
 			}
-			plain, withSel := typeMatches(d, e)
+			plain, withSel := npmTypeMatches(d, e)
 			if !plain && !withSel {
 				continue
 			}
@@ -783,7 +796,7 @@ func (o *oracle) run() {
 				aliased = true
 			}
 			fi, ti := o.idx[e.From], o.idx[e.To]
-			if fi >= 0 && ti >= 0 && o.nodeLookup(fi, lookupName(d)) == ti {
+			if fi >= 0 && ti >= 0 && o.nodeLookup(fi, npmLookupName(d)) == ti {
 				lookupAny = true
 			}
 			if withSel && !plain && ti >= 0 && !o.tree[ti].Bundled {
@@ -835,9 +848,9 @@ func (o *oracle) run() {
 	// clause 2: every expected requirement of every graph node has an edge or an error
 	for i, n := range g.Nodes {
 		for _, ne := range n.Errors {
-			st[fmt.Sprintf("nodeerr:%d", nodeErrKind(ne.Error))]++
+			st[fmt.Sprintf("nodeerr:%d", npmNodeErrKind(ne.Error))]++
 		}
-		for _, d := range expectedRequirements(o.lc, n.Version) {
+		for _, d := range npmExpectedRequirements(o.lc, n.Version) {
 			done := false
 			for _, ne := range n.Errors {
 				if ne.Req == d.VersionKey {
@@ -851,7 +864,7 @@ func (o *oracle) run() {
 				if e.Requirement != d.Version {
 					continue
 				}
-				if plain, withSel := typeMatches(d, e); (plain || withSel) && o.sat(d, e) != "" {
+				if plain, withSel := npmTypeMatches(d, e); (plain || withSel) && o.sat(d, e) != "" {
 					done = true
 				}
 			}
@@ -896,7 +909,7 @@ func (o *oracle) run() {
 	}
 }
 
-var statKeys = []string{"tree_nodes", "max_depth", "nested", "bundled_nodes", "alias_entries", "graph_nodes", "edges",
+var npmStatKeys = []string{"tree_nodes", "max_depth", "nested", "bundled_nodes", "alias_entries", "graph_nodes", "edges",
 	"gerr_items", "requirements", "edge:selector", "edge:reuse", "sat:range", "sat:tag", "sat:star", "sat:slot",
 	"sat:bundled", "pick:latest", "pick:latest-prerelease", "skipped:lookup_dupname", "pick:highest", "pick:skip-deprecated", "pick:all-deprecated",
 	"nodeerr:1", "nodeerr:2", "nodeerr:3"}
@@ -907,30 +920,30 @@ var statKeys = []string{"tree_nodes", "max_depth", "nested", "bundled_nodes", "a
 const npmTimeout = 400 * time.Millisecond
 
 func npmRec(arg sx.V) sx.V {
-	lc, hasDerived := buildUniverse(arg.Nth(0))
+	lc, hasDerived := npmBuildUniverse(arg.Nth(0))
 	root := resolve.VersionKey{
 		PackageKey:  resolve.PackageKey{System: resolve.NPM, Name: arg.Nth(1).Nth(0).Str()},
 		VersionType: resolve.Concrete,
 		Version:     arg.Nth(1).Nth(1).Str(),
 	}
 	nruns := int(arg.Nth(2).Int())
-	rec := newRec(lc)
+	rec := npmNewRec(lc)
 	first := npmResolve(rec, root)
-	obs := observable(first).String()
+	obs := npmObservable(first).String()
 	nondet := 0
 	for i := 1; i < nruns && first.status != "timeout"; i++ {
 		r2 := npmResolve(lc, root)
 		if r2.status == "timeout" {
 			continue // a loaded machine, not a different result
 		}
-		if o2 := observable(r2).String(); o2 != obs {
+		if o2 := npmObservable(r2).String(); o2 != obs {
 			nondet = 1
 		}
 	}
-	o := &oracle{lc: lc, hasDerived: hasDerived, stats: map[string]int{}}
+	o := &npmOracle{lc: lc, hasDerived: hasDerived, stats: map[string]int{}}
 	if first.status == "ok" {
 		o.g, o.tree = first.g, first.tree
-		o.idx = gidIndex(first.tree, len(first.g.Nodes))
+		o.idx = npmGidIndex(first.tree, len(first.g.Nodes))
 		o.run()
 	}
 	if first.status == "panic" {
@@ -940,17 +953,17 @@ func npmRec(arg sx.V) sx.V {
 		o.fail("nondeterministic", "two resolutions of the same root on the same client differ")
 	}
 	var stats []sx.V
-	for _, k := range statKeys {
+	for _, k := range npmStatKeys {
 		stats = append(stats, sx.Int(o.stats[k]))
 	}
 	// Fuel for the model: the main loop pops at most one entry per installed node and per
 	// reused edge, so twice that bound is ample when the model agrees and keeps a model that
 	// does not terminate on this table from spinning.
-	fuel := 50
+	fuel := 2*(len(rec.reqs)+len(rec.match)) + 50
 	if first.status == "ok" {
-		fuel = 2*(len(first.tree)+len(first.g.Edges)) + 20
+		fuel += 2 * (len(first.tree) + len(first.g.Edges))
 	}
-	cas := sx.L(sx.Int(fuel), sxVKey(root), sxAnswers(rec.vers), sxAnswers(rec.reqs), sxAnswers(rec.match), rec.semTable())
+	cas := sx.L(sx.Int(fuel), npmSxVKey(root), npmSxAnswers(rec.vers), npmSxAnswers(rec.reqs), npmSxAnswers(rec.match), rec.semTable())
 	verdict := sx.L(sx.Sym(first.status), sx.Bool(hasDerived), sx.L(o.viol...), sx.L(stats...))
 	return sx.L(verdict, sx.B(hex.EncodeToString([]byte(cas.String()))), sx.B(hex.EncodeToString([]byte(obs))))
 }
@@ -960,15 +973,15 @@ func npmTable(arg sx.V) sx.V {
 	if len(l) != 6 {
 		panic(harnessBug{"npm case needs 6 fields"})
 	}
-	root := decVKey(l[1])
-	tc := newTableClient(l[2], l[3], l[4])
+	root := npmDecVKey(l[1])
+	tc := npmNewTableClient(l[2], l[3], l[4])
 	r1 := npmResolve(tc, root)
-	first := observable(r1)
+	first := npmObservable(r1)
 	if r1.status == "timeout" {
 		return first
 	}
 	if r2 := npmResolve(tc, root); r2.status != "timeout" {
-		if second := observable(r2); first.String() != second.String() {
+		if second := npmObservable(r2); first.String() != second.String() {
 			return sx.L(sx.Sym("nondeterministic"), first, second)
 		}
 	}
